@@ -9,6 +9,11 @@
              "strconv.FormatFloat(v,'f',-1,64) / ParseFloat enter the theorems as Section variables; the "
              'harness supplies them as a table computed with strconv and asserts the round trip on every '
              'number',
+             'state shared between conversions/readers is checked on the Go side only: every case converts a '
+             'probe document first and changes the results, then converts its own tree, changes the results, '
+             'converts again (fresh values); copy results handed to a mutating javascript custom_func, record '
+             'after record; pairs/triples of XML readers interleaved on one goroutine must return what each '
+             'returns alone (xml_readers_independent is the model side)',
              'the partially built idr.Node tree is modelled as the stack of open nodes (append-only '
              'construction; justified by the C12 refinement to the abstract tree)'],
  'assumptions': ['jwf: object keys pairwise distinct at every level (duplicate keys are folded into an array '
